@@ -188,6 +188,10 @@ func JoinTables(rt *rapid.T) []model.Stmt {
 		if rapid.Bool().Draw(rt, "hasv") {
 			cols = append(cols, model.Col{Name: "v", Type: model.TInt})
 		}
+		if rapid.IntRange(0, 2).Draw(rt, "hass") > 0 {
+			// a string column for composite join keys
+			cols = append(cols, model.Col{Name: "s", Type: model.TVarchar, Len: 8})
+		}
 		// a column only this table has
 		cols = append(cols, model.Col{Name: fmt.Sprintf("u%d", ti), Type: model.ColType(rapid.SampledFrom([]int{0, 1}).Draw(rt, "utype")), Len: 16})
 		create := model.Stmt{Kind: "create", Table: name, Cols: cols}
@@ -199,9 +203,14 @@ func JoinTables(rt *rapid.T) []model.Stmt {
 			for i := 0; i < nrows; i++ {
 				var row []model.Val
 				for _, c := range cols {
-					if c.Type == model.TInt {
-						row = append(row, model.Int(int64(rapid.IntRange(0, 3).Draw(rt, "kv"))))
-					} else {
+					switch {
+					case c.Type == model.TInt:
+						// few distinct keys (they repeat, rows stay unmatched); 1/10/11 next to the
+						// strings "01"/"1"/"0" give composite keys that coincide when printed side by side
+						row = append(row, model.Int(rapid.SampledFrom([]int64{0, 1, 2, 3, 1, 10, 11, 2}).Draw(rt, "kv")))
+					case c.Name == "s":
+						row = append(row, model.Str(rapid.SampledFrom([]string{"1", "01", "0", "10", "", "a", "1 "}).Draw(rt, "ssv")))
+					default:
 						row = append(row, model.Str(rapid.SampledFrom([]string{"a", "b", ""}).Draw(rt, "sv")))
 					}
 				}
@@ -281,7 +290,26 @@ func JoinQuery(rt *rapid.T, db *model.DB, misaddress bool) Select {
 		on := &model.Cond{}
 		ncmp := rapid.SampledFrom([]int{1, 1, 2}).Draw(rt, "ncmp")
 		var conj []model.Cmp
+		hasS := func(t *model.Table) bool { return t.ColIdx("s") >= 0 }
 		for k := 0; k < ncmp; k++ {
+			if hasS(r.t) && rapid.IntRange(0, 2).Draw(rt, "ons") == 0 {
+				// string component of a composite key: s = s against an earlier, never-padded table
+				var cands []side
+				for _, sd := range avail {
+					if hasS(sd.t) {
+						cands = append(cands, sd)
+					}
+				}
+				if len(cands) > 0 {
+					ls := cands[rapid.IntRange(0, len(cands)-1).Draw(rt, "onsl")]
+					l, rr := model.Operand{Qual: ls.ref.ID(), Col: "s"}, model.Operand{Qual: r.ref.ID(), Col: "s"}
+					if rapid.Bool().Draw(rt, "onsswap") {
+						l, rr = rr, l
+					}
+					conj = append(conj, model.Cmp{L: l, Op: rapid.SampledFrom([]string{"=", "=", "=", "!="}).Draw(rt, "onsop"), R: rr})
+					continue
+				}
+			}
 			var l model.Operand
 			padEq := false
 			if len(avail) < len(sides) && rapid.IntRange(0, 2).Draw(rt, "onpadded") == 0 {
